@@ -77,13 +77,16 @@ Definition squeeze_ttm (x : ttm R) : val :=
   | _ => VM x
   end.
 Definition all_lt (l : list nat) (n : nat) : bool := forallb (fun i => Nat.ltb i n) l.
+(* `all(i in index for i in range(len(N)))`: only a sum over every mode is squeezed to a 0-d tensor *)
+Definition covers (l : list nat) (n : nat) : bool := forallb (fun i => memb i l) (seq 0 n).
 
 Definition apply_op (o : opn) (args : list val) (ia : list (list nat)) : val :=
   match o, args with
   | ODot, [VT a; VT b] =>
       match ia with
       | [] => if eqb_ln (shape a) (shape b) then scalar_d (dot_full a b) else VErr EShape
-      | [axis] => if (length a <? length b)%nat then VErr EShape else squeeze_tt (dot_axis a b axis)
+      | [axis] => if (length a <? length b)%nat then VErr EShape
+                  else if covers axis (length a) then squeeze_tt (dot_axis a b axis) else VT (dot_axis a b axis)
       | _ => VErr EModel
       end
   | ODot, [VM _; _] | ODot, [_; VM _] => VErr ENotImpl
@@ -92,14 +95,17 @@ Definition apply_op (o : opn) (args : list val) (ia : list (list nat)) : val :=
   | OSum, [VT x] =>
       match ia with
       | [] => scalar_d (sum_all x)
-      | [index] => if all_lt index (length x) then squeeze_tt (sum_modes x index) else VErr EArgs
+      | [index] => if all_lt index (length x)
+                   then (if covers index (length x) then squeeze_tt (sum_modes x index) else VT (sum_modes x index))
+                   else VErr EArgs
       | _ => VErr EModel
       end
   | OSum, [VM x] =>
       match ia with
       | [] => scalar_d (sum_all4 x)
-      | [index] => if all_lt index (length x) then squeeze_ttm (sum_modes4 x index) else VErr EArgs
-      | _ => VErr EModel
+      | index :: _ => if all_lt index (length x)
+                   then (if covers index (length x) then squeeze_ttm (sum_modes4 x index) else VM (sum_modes4 x index))
+                   else VErr EArgs
       end
   | OBilinear, [VT x; VM A; VT y] =>
       if eqb_ln (shape x) (shapeM A) && eqb_ln (shape y) (shapeN A) then scalar_d (bilinear_form x A y)
@@ -166,6 +172,7 @@ Definition dapply_op (o : opn) (args : list val) (ia : list (list nat)) : val :=
   | ONorm2, [VD a], _ => VD (ddot a a)
   | OSum, [VD a], [] => VD (dsum_all a)
   | OSum, [VD a], [index] => VD (dsum_modes a index)
+  | OSum, [VD a], [_; dindex] => VD (dsum_modes a dindex)   (* operators: row and column mode of each summed pair *)
   | OBilinear, [VD x; VD A; VD y], _ => VD (dbilinear x A y)
   | _, _, _ =>
   match o, args with
